@@ -22,11 +22,13 @@ def main():
     res = {"property": prop, "name": name}
     try:
         shutil.copy(os.path.join(src, "demo.rs"), os.path.join(wt, "tests", "demo.rs"))
-        rc, out = sh("cargo test --offline --test demo 2>&1 | tail -5", wt)
-        res["demo_without_patch"] = "pass" if re.search(r"test result: ok", out) else "FAIL"
+        feat = " --features serde,serde_repr" if 'cfg(feature = "serde")' in open(os.path.join(src, "demo.rs")).read() else ""
+        res["demo_features"] = feat.strip()
+        rc, out = sh("cargo test --offline --test demo" + feat + " 2>&1 | tail -5", wt)
+        res["demo_without_patch"] = "pass" if re.search(r"test result: ok\. [1-9]", out) else "FAIL"
         rc, out = sh("git apply %s" % os.path.join(src, "patch.diff"), wt)
         res["applies"] = rc == 0
-        rc, out = sh("cargo test --offline --test demo 2>&1 | tail -8", wt)
+        rc, out = sh("cargo test --offline --test demo" + feat + " 2>&1 | tail -8", wt)
         res["demo_with_patch"] = "fail" if re.search(r"test result: FAILED|error", out) else "PASS"
         os.remove(os.path.join(wt, "tests", "demo.rs"))
         rc, out = sh("cargo test --offline 2>&1 | grep 'test result'", wt)
